@@ -321,11 +321,17 @@ def check_class(ctx, R, cls, rules=None):
                     if not ok:
                         # `for .. in <taken>: release(..)`: on the zero-iteration path the taken container was empty
                         tknode = (e.x or {}).get('node')
-                        for x in evs[i:]:
+                        for xi, x in enumerate(evs[i:], i):
                             if x.kind == 'LOOPEXIT' and x.a == 0 and x.c == 'cond' and x.x and tknode is not None:
                                 loop = x.x['node']
                                 it = getattr(loop, 'iter', None)
-                                if it is not None and (any(n is tknode for n in ast.walk(it)) or taketag in st_tags_of(st, it)):
+                                via_helper = False
+                                if it is not None and x.depth > 0 and isinstance(it, ast.Name):
+                                    # the loop lives in a helper that was handed the taken value: map its parameter back
+                                    from ..paths import caller_expr
+                                    ce = caller_expr(evs, xi, it)
+                                    via_helper = ce is not None and any(n is tknode for n in ast.walk(ce))
+                                if it is not None and (via_helper or any(n is tknode for n in ast.walk(it)) or taketag in st_tags_of(st, it)):
                                     body_rel = any(isinstance(n, ast.Call) and isinstance(n.func, ast.Attribute)
                                                    and n.func.attr == '_release_refs' for n in ast.walk(loop))
                                     if body_rel:
